@@ -686,8 +686,17 @@ def run_case(ctx):
         c.controlled(np.int64(k) if np_k else k)
         return
     if cls == "layer":
-        n = rng.choice([0, 1, 2, 3, 5, 8, 12, 17]) if rng.random() < 0.9 else rng.choice([9, 16, 32, 33, 64, 65])
+        big = ctx.index % 6 == 5
+        n = rng.choice([0, 1, 2, 3, 5, 8, 12, 17]) if not big else rng.choice([33, 64, 65, 66, 97, 129, 130])
         factory, npar, fname = _factory(rng, tab)
+        if big:
+            # wide layers (beyond any batch of 32 / 64 operations) always with parameter rows: row i belongs on qubit i
+            # at every width
+            for _ in range(12):
+                if npar >= 1:
+                    break
+                factory, npar, fname = _factory(rng, tab)
+            ctx.mon.note("layer:wide")
         calls = [_builder_args(rng, nprng, n, factory, npar, fname)]
         if rng.random() < 0.3:
             # near-identical requests in one process: same width and factory with other rows, another factory with
